@@ -98,6 +98,21 @@ def split_lines(path, outs):
     return n
 
 
+def one_formula(name, names, chunk=30):
+    """TLA+ lines defining `name` as the conjunction of the operators `names`, written as one formula (not a top-level
+    conjunction: Apalache would check every conjunct in a separate solver query) and in chunks (a flat disjunction of a few
+    hundred operands overflows Apalache's stack)."""
+    if not names:
+        return ["%s == TRUE" % name]
+    out, parts = [], []
+    for i in range(0, len(names), chunk):
+        part = "%sPart%d" % (name, i // chunk)
+        out.append("%s == ~(%s)" % (part, " \\/ ".join("~" + n for n in names[i:i + chunk])))
+        parts.append(part)
+    out.append("%s == ~(%s)" % (name, " \\/ ".join("~" + q for q in parts)))
+    return out
+
+
 def piece_ext_module(name, cases):
     """TLA+ module stating, for every recorded case of the real piecefunc code, that PieceFunc.tla agrees with it.
     cases: list of dict(dots=[[x, y] decimal strings], xs=[...], panicked=bool, ys=[...])."""
@@ -119,9 +134,8 @@ def piece_ext_module(name, cases):
             out.append("Value%dCase == %s" % (k, " /\\ ".join([("Get%d(%s, %s) = %s" % (n, flat, x, y)) if y != "panic" else "FALSE"
                                                                  for x, y in zip(cs["xs"], cs["ys"])])))
             gnames.append("Value%dCase" % k)
-    # single formulas, not top-level conjunctions (Apalache would check every conjunct in a separate solver query)
-    out.append("AllValid == ~(" + " \\/ ".join("~" + n for n in vnames) + ")" if vnames else "AllValid == TRUE")
-    out.append("AllValues == ~(" + " \\/ ".join("~" + n for n in gnames) + ")" if gnames else "AllValues == TRUE")
+    out += one_formula("AllValid", vnames)
+    out += one_formula("AllValues", gnames)
     out.append("====")
     return "\n".join(out) + "\n"
 
@@ -143,6 +157,6 @@ def event_wide_module(name, cases):
         vals = "{" + ", ".join(str(x) for x in cs["vals"]) + "}"
         out.append("Case%d == WellFormed(%s, %s, %d, %s) = %s" % (k, ev, ps, cs["cur"], vals, "TRUE" if cs["accepted"] else "FALSE"))
         names.append("Case%d" % k)
-    out.append("All == ~(" + " \\/ ".join("~" + n for n in names) + ")" if names else "All == TRUE")
+    out += one_formula("All", names)
     out.append("====")
     return "\n".join(out) + "\n"
